@@ -46,7 +46,12 @@ impl AckFrequencyState {
         config
             .max_ack_delay
             .unwrap_or(self.peer_max_ack_delay)
-            .clamp(min_ack_delay, rtt.max(MIN_AUTOMATIC_ACK_DELAY))
+            // The peer's `min_ack_delay` may legitimately exceed the RTT-derived upper bound; never
+            // hand `clamp` an upper bound below its lower bound (it panics).
+            .clamp(
+                min_ack_delay,
+                rtt.max(MIN_AUTOMATIC_ACK_DELAY).max(min_ack_delay),
+            )
     }
 
     /// Returns the `max_ack_delay` for the purposes of calculating the PTO
